@@ -103,6 +103,16 @@ def bytes_(s: Any, encoding: str = 'utf-8', errors: str = 'strict') -> Any:
     return s
 
 
+def _header_key(headers: Dict[bytes, bytes], name: bytes) -> bytes:
+    """Returns the spelling under which header ``name`` is already present
+    in ``headers`` (header names are case-insensitive), else ``name``."""
+    lname = name.lower()
+    for k in headers:
+        if k.lower() == lname:
+            return k
+    return name
+
+
 def build_http_request(
     method: bytes, url: bytes,
     protocol_version: bytes = HTTP_1_1,
@@ -115,7 +125,7 @@ def build_http_request(
     """Build and returns a HTTP request packet."""
     headers = headers or {}
     if content_type is not None:
-        headers[b'Content-Type'] = content_type
+        headers[_header_key(headers, b'Content-Type')] = content_type
     has_transfer_encoding = False
     has_user_agent = False
     for k, _ in headers.items():
@@ -124,7 +134,7 @@ def build_http_request(
         elif k.lower() == b'user-agent':
             has_user_agent = True
     if body and not has_transfer_encoding:
-        headers[b'Content-Length'] = bytes_(len(body))
+        headers[_header_key(headers, b'Content-Length')] = bytes_(len(body))
     if not has_user_agent and not no_ua:
         headers[b'User-Agent'] = PROXY_AGENT_HEADER_VALUE
     return build_http_pkt(
@@ -155,7 +165,8 @@ def build_http_response(
             has_transfer_encoding = True
             break
     if not has_transfer_encoding and not no_cl:
-        headers[b'Content-Length'] = bytes_(len(body)) if body else b'0'
+        headers[_header_key(headers, b'Content-Length')] = \
+            bytes_(len(body)) if body else b'0'
     return build_http_pkt(line, headers, body, conn_close)
 
 
@@ -174,7 +185,7 @@ def build_http_pkt(
     pkt = WHITESPACE.join(line) + CRLF
     headers = headers or {}
     if conn_close:
-        headers[b'Connection'] = b'close'
+        headers[_header_key(headers, b'Connection')] = b'close'
     for k, v in headers.items():
         pkt += build_http_header(k, v) + CRLF
     pkt += CRLF
